@@ -1015,6 +1015,22 @@ def c15_directed(L, rnd, tier):
                     sc.offset(1, pos)
                     sc.asm(1, [ln_key, k1, ln_key], [L.text[ln_key], L.text[k1], L.text[ln_key]], twin=True)
                 out.append(sc)
+    # a setter called two or three times with the same value must leave what one call leaves (option-sensitive final call, fresh twin)
+    sens = [k for k in L.sens][:12]
+    if sens:
+        for setter in ("mov", "swap", "nobase", "sib", "all"):
+            for v in ("STRICT", "NASM", "SMART"):
+                for reps in (2, 3):
+                    for first in (None, "NASM", "STRICT"):
+                        sc = Script("C15-o%d" % n); n += 1
+                        sc.create(1, "ext", 400)
+                        if first:
+                            sc.opt(1, "all", first)
+                        for _ in range(reps):
+                            sc.opt(1, setter, v)
+                        sc.offset(1, 5)
+                        sc.asm(1, sens, [L.text[x] for x in sens], twin=True)
+                        out.append(sc)
     return out
 
 
